@@ -189,3 +189,6 @@ def run(ctx, rep):
     cachelib.cache_rules(ctx, rep, "C16")
     from rules import C03 as _C03
     compose(ctx, rep, "C03", "C16.codes", r"^C03\.rfc$")
+    # FlacStreamWriter shares the frame encoder: a frame that decodes to other samples than were written is a frame that
+    # was never written
+    compose(ctx, rep, "C01", "C16.enc", r"^C01\.(corr|zero|slot|wasted|fallback)$")
